@@ -41,6 +41,11 @@ type C18Op struct {
 	COpts []COpt   `json:"copts,omitempty"`
 	EOpts []EOpt   `json:"eopts,omitempty"`
 	FailN int      `json:"fail_n,omitempty"`
+	// Want: the location (of the resource in state State) the generator spelled the path for, when the
+	// spelling denotes exactly that element. The reference model's own idea of what the path denotes:
+	// a field name is that field, [n] is the n-th entry of the list as it is stored.
+	Want  string `json:"want,omitempty"`
+	State string `json:"state,omitempty"`
 	// BadUTF8: the string held by the value is replaced by bytes that are not valid UTF-8 just before
 	// the call, so that re-encoding the contained resource it goes into must fail (a marshal fault)
 	BadUTF8 bool `json:"bad_utf8,omitempty"`
@@ -465,6 +470,19 @@ func (e *c18Exec) stepOp(r *runCtx, oc *opCtx, in *inputs, res fhir.Resource, ci
 		e.violate("patch-model", "read-mutated", where+": a plain fhirpath evaluation of the path changed the resource")
 		return "read-mutated"
 	}
+	// What the path denotes is otherwise taken from the library's own evaluation (navigation is not
+	// this property's subject) - but the element an operation changes must be the one the path
+	// denotes in the resource's tree, and for paths the generator spelled from a location of the
+	// resource in exactly this state the denotation is known without evaluating anything.
+	denotes := "" // non-empty: the path selects something else than the element it was spelled for
+	if op.Want != "" && (op.Contained == nil || cont != nil) && sel.compileErr == nil && sel.evalErr == nil && sel.panicked == "" && op.State == digest(string(msgBytes(mroot))) {
+		st.probe("denotation-checked")
+		if len(sel.items) == 1 && !sel.located[0] {
+			// a whole contained entry: navigation hands out the unpacked copy, which has no place in the tree
+		} else if len(sel.items) != 1 || strings.TrimSuffix(sel.locs[0].String(), "~") != strings.TrimSuffix(op.Want, "~") { // (~: the alternative inside a choice slot - one place in the tree either way)
+			denotes = fmt.Sprintf("the path was spelled for the element at %s of the resource in this very state, but %s", op.Want, describeSel(&sel))
+		}
+	}
 
 	oc.nodes, oc.failAt, oc.failFired = 0, op.FailN, false
 	got := e.runOp(oc, res, op, value, eopts)
@@ -576,6 +594,12 @@ func (e *c18Exec) stepOp(r *runCtx, oc *opCtx, in *inputs, res fhir.Resource, ci
 		return "ok"
 	}
 
+	if denotes != "" && changed {
+		// The operation succeeded and changed the resource - but not at the element its path denotes in
+		// the tree ("or nothing" is allowed: a path that selects nothing changes nothing).
+		e.violate("patch-model", "changed-another-element", ctxt()+"\n  "+denotes+"\n  changed: "+diffSummary(before, res))
+		return "ok"
+	}
 	if op.Contained != nil && cont == nil {
 		return "ok-unmodelled:" + digest(string(afterBytes))
 	}
